@@ -9,7 +9,8 @@ Extraction "../extracted/model.ml"
   T teqb
   observe_effector c02_pred new_stream parse_erule
   lstep lrun RoleGraph.answer c03_pred
-  print_expr escape_assertion key_match key_get
+  print_expr escape_assertion key_match key_get key_match2 key_get2 key_match3 key_get3 key_match4 key_match5
+  regex_match_words render2 render3 grammar spec_km spec_km4 spec_km5 spec_get before_star is_prefix
   step ask new_enforcer reload_view count_us m_get_all
   perm_ref_plain perm_ref_ctx outcome_eqb
   cstep cenforce crun prun.
